@@ -197,11 +197,11 @@ class Ctx:
                 self.proof_problems.append({"kind": "missing-theorem", "theorem": nme})
 
     # ------------------------------------------------------------------ model execution
-    def driver(self, lines, timeout=600):
+    def driver(self, module, lines, timeout=600):
         if not os.path.exists(DRIVER):
             raise HarnessError("tlxdriver not built")
         data = "\n".join(lines) + "\n"
-        p = subprocess.run([DRIVER], input=data, stdout=subprocess.PIPE, stderr=subprocess.PIPE, text=True,
+        p = subprocess.run([DRIVER, module], input=data, stdout=subprocess.PIPE, stderr=subprocess.PIPE, text=True,
                            timeout=timeout)
         if p.returncode != 0:
             raise HarnessError(f"tlxdriver exited {p.returncode}: {p.stderr[-500:]}")
